@@ -5,7 +5,7 @@ EDGE_KINDS = ["pipe", "pipe3", "pipe_h", "pipe_rev", "pipe_zeta", "valve", "valv
               "pipe_vpi_closed", "pipe_vpi2", "pump", "compressor", "fc", "fc_off", "pc", "pc_off", "hex", "pipe_oos"]
 LOAD_KINDS = ["sink", "source", "storage_pos", "storage_neg", "two_sinks", "sink_oos", "none", "nan"]
 FEEDER_KINDS = ["one", "two_same", "second_other", "two_one_oos", "type_p", "three_interleaved"]
-LABEL_KINDS = ["range", "shift", "desc", "big"]
+LABEL_KINDS = ["range", "shift", "desc", "big", "rev"]
 FRICTION = ["nikuradse", "colebrook", "swamee-jain"]
 
 
@@ -16,6 +16,8 @@ def labels(kind, n):
         return [3 + 4 * i for i in range(n)]
     if kind == "desc":
         return [10 * (n - i) for i in range(n)]
+    if kind == "rev":
+        return [n - 1 - i for i in range(n)]   # a permutation of 0..n-1: label != table position, still a valid row number
     if kind == "big":
         return [100000 + 7 * i if i == n - 1 else 2 * i + 1 for i in range(n)]
     raise KeyError(kind)
